@@ -14,6 +14,8 @@ From CB Require Import Trie.Locks.
 From CB Require Import Trie.LocksProofs.
 From CB Require Import Trie.Nibbles.
 From CB Require Import Trie.NibblesProofs.
+From CB Require Import Trie.Arena.
+From CB Require Import Trie.ArenaProofs.
 Import ListNotations.
 Local Open Scope N_scope.
 
@@ -227,6 +229,59 @@ Example stem_odd_boundaries :
   /\ fst (fst (follow_iter (iter_new [18; 63]) (stem_iter (ms_extend s t)))) = IDiff 15 4.
 Proof. vm_compute. repeat split. Qed.
 Print Assumptions stem_odd_boundaries.
+
+(** ** The arena (level C, first model: Arena.v).  The generation bookkeeping of the
+    vectors: [new_generation] only appends and records the lengths as checkpoint;
+    [make_owned] only appends and touches no node below a bound under the node it is
+    applied to; rolling back to the generation a checkpoint was taken from restores the
+    arena exactly, and so does rolling back after anything that left the vectors below the
+    checkpoint alone. *)
+Theorem arena_new_generation_appends : forall a,
+  a_gens a <> [] ->
+  let a' := a_new_generation a in
+  exists g, a_gens a' = a_gens a ++ [g]
+    /\ ag_nodes g = length (a_nodes a) /\ ag_values g = length (a_values a) /\ ag_entries g = length (a_entries a)
+    /\ firstn (length (a_nodes a)) (a_nodes a') = a_nodes a
+    /\ firstn (length (a_entries a)) (a_entries a') = a_entries a
+    /\ a_values a' = a_values a.
+Proof. exact new_generation_appends. Qed.
+Print Assumptions arena_new_generation_appends.
+
+Theorem arena_make_owned_copy_on_write : forall a idx cp,
+  (cp <= idx)%nat -> (cp <= length (a_nodes a))%nat ->
+  let a' := make_owned a idx in
+  a_gens a' = a_gens a /\ a_values a' = a_values a
+  /\ (exists es, a_entries a' = a_entries a ++ es)
+  /\ firstn cp (a_nodes a') = firstn cp (a_nodes a)
+  /\ (length (a_nodes a) <= length (a_nodes a'))%nat.
+Proof. exact make_owned_shape. Qed.
+Print Assumptions arena_make_owned_copy_on_write.
+
+Theorem arena_normalize_undoes_new_generation : forall a,
+  a_gens a <> [] -> a_normalize (length (a_gens a) - 1) (a_new_generation a) = a.
+Proof. exact normalize_undoes_new_generation. Qed.
+Print Assumptions arena_normalize_undoes_new_generation.
+
+Theorem arena_normalize_restores_prefix : forall a b g newer,
+  a_gens b = a_gens a ++ g :: newer -> a_gens a <> [] ->
+  ag_nodes g = length (a_nodes a) -> ag_values g = length (a_values a) -> ag_entries g = length (a_entries a) ->
+  firstn (length (a_nodes a)) (a_nodes b) = a_nodes a ->
+  firstn (length (a_entries a)) (a_entries b) = a_entries a ->
+  firstn (length (a_values a)) (a_values b) = a_values a ->
+  a_normalize (length (a_gens a) - 1) b = a.
+Proof. exact normalize_restores_prefix. Qed.
+Print Assumptions arena_normalize_restores_prefix.
+
+Example arena_copy_on_write_example :
+  (* generation 0: keys 0x12, 0x13; generation 1 overwrites 0x12 and deletes 0x13; rollback *)
+  let run := fix run ops s := match ops with [] => s | o :: r => run r (fst (as_step o s)) end in
+  let s0 := run [OInsert [18] [1]; OInsert [19] [2]] as_init in
+  let s1 := run [ONewGen; OInsert [18] [9]; ODelete [19]; OGet [18]] s0 in
+  sizes (as_arena s0) = [3; 2; 2; 1]%nat
+  /\ sizes (as_arena s1) = [6; 4; 3; 2]%nat
+  /\ as_arena (fst (as_step (ONormalize 0) s1)) = as_arena s0.
+Proof. vm_compute. repeat split. Qed.
+Print Assumptions arena_copy_on_write_example.
 
 (** ** Non-vacuity: concrete histories exercising the interesting shapes *)
 
